@@ -382,6 +382,10 @@ def r05_3(ctx, counts) -> RuleResult:
             out = set(expr_taint(e, st, nd))
             if isinstance(e, ast.Name) and 'operand' in st.get(e.id, ()):
                 out.add('operand')
+            if isinstance(e, (ast.Tuple, ast.List)):
+                # `for op in (op1, op2)`: the loop variable is each of the operand values
+                for el in e.elts:
+                    out |= iter_taint(el, st, nd)
             return out
 
         T = Taint.__new__(Taint)
